@@ -329,6 +329,7 @@ func FlagGrammar(s string) bool {
 
 //@ func (dec *Decoder) Text(ptr *string) (result bool)
 //@   modifies ptr
+//@   ensures !result ==> *ptr == old(*ptr)
 
 // Quoted: the value is made of exactly the bytes read between the quotes
 // (after dropping the escape character): nothing but the byte just read is
@@ -480,11 +481,14 @@ func utf7Name(name string) string {
 // DiscardLine returns only after the end of the line was consumed (or reading
 // failed): a bare CR is not a line end, what follows it up to the line feed
 // still belongs to the discarded line and is never left to be parsed as the
-// next command.
+// next command. Octets are skipped as a non-synchronising literal only for a
+// literal header found in text that was read just before (never for a header
+// remembered from an earlier part of the line).
 //
 //@ func (dec *Decoder) CRLF() (result bool)
 //@   ensures result ==> dec.crlf
 
 //@ func (dec *Decoder) DiscardLine()
-//@   props C04:post
+//@   props C04:post,callsite
+//@   callsite io.CopyN(dst io.Writer, src io.Reader, n int64) requires __called("Decoder.Text") && __resultBool("Decoder.Text", 0)
 //@   ensures[C04] dec.crlf || (__called("Reader.ReadByte") && __failed("Reader.ReadByte"))
